@@ -295,7 +295,10 @@ func (p *Pool) Get() interface{} {
 			if n == 1 {
 				alts = 2
 			}
-			c := vsched.Choose(alts, "Pool.Get", true)
+			c := 0
+			if vsched.Exploring() {
+				c = vsched.Choose(alts, "Pool.Get", false)
+			}
 			if n == 1 && c == 1 {
 				c = 2
 			}
